@@ -484,13 +484,17 @@ def remote_cfg_for(cfg, entity_id: UnsignedByteField) -> RemoteEntityCfg:
 
 
 class SeqProvider(SeqCountProvider):
+    """Sequence-number provider of the given width that wraps (spacepackets' in-memory provider
+    counts without bound)."""
+
     def __init__(self, bits, start):
         super().__init__(bits)
         self.count = start % (1 << bits)
         self.handed_out = []
 
     def get_and_increment(self):
-        v = super().get_and_increment()
+        v = self.count
+        self.count = (self.count + 1) % (1 << self.max_bit_width)
         self.handed_out.append(v)
         return v
 
@@ -799,7 +803,9 @@ class Sim:
         self.cfg = norm_cfg(case.get("cfg"))
         self.log = []
         self.hook = hook
-        content = case.get("file", b"")
+        from .models import file_bytes
+
+        content = file_bytes(case.get("file", b""))
         self.content = content
         if paths is None:
             self.root = fresh_dir(name)
